@@ -4,6 +4,8 @@ R-TABLE   grouping decisions >= the minimum imposed by regex operator precedence
 R-HOLE    every builder, on every operand type/witness, emits text whose syntax tree
           (CPython's parser) equals that of the fully parenthesised composition
 R-DELEG   class form / operator form / method form of one expression emit the same text
+R-COMPOSE depth-2 compositions over adversarial leaves, with Pregex.__infer_type interpreted (no type oracle): the
+          emitted text has the syntax tree of the fully parenthesised reference (emitter <-> classifier agreement)
 """
 from __future__ import annotations
 
@@ -31,7 +33,7 @@ def text_use_precondition(model):
     allowed_attr_calls = {"startswith", "replace", "sub", "match", "search", "fullmatch", "group",
                           "_to_pregex", "_get_type", "_is_repeatable", "_concat_conditional_group",
                           "_quantify_conditional_group", "_assert_conditional_group", "capture", "concat",
-                          "exactly", "either", "enclose"}
+                          "exactly", "either", "enclose", "isidentifier"}
     bad = []
     n = 0
     names = list(B.BINARY_REF) + list(B.UNARY_REF) + ["capture", "group"]
@@ -152,6 +154,12 @@ def run(ctx, model):
     # ---------------- R-DELEG
     n_deleg = _deleg(ctx, model, recvs, args)
     ctx.floor("R-DELEG", n_deleg, 60, "spelling comparisons")
+    # ---------------- R-COMPOSE (depth-2 composition with the real classifier)
+    from . import compose
+    recs = compose.run_all(ctx, model)
+    n_comp = compose.judge_c02(ctx, model, recs)
+    ctx.floor("R-COMPOSE", n_comp, 5000, "depth-1 / depth-2 emissions")
+    ctx.extra["compose_depth1_expressions"] = len(recs)
     ctx.extra["builders"] = len(B.UNARY_REF) + len(B.BINARY_REF) + 2
     ctx.extra["precondition_scanned_functions"] = n_scanned
 
